@@ -118,6 +118,8 @@ func c14EncResps(l []c14Resp) string {
 	return strings.Join(parts, " ")
 }
 
+var c14Methods = []string{"POST", "PUT", "PATCH", "DELETE", "GET", "PROPFIND", "REPORT", "X-BULK", "HEAD", "OPTIONS"}
+
 type c14Sink struct{ chunks [][]byte }
 
 func (s *c14Sink) Write(b []byte) (int, error) {
@@ -224,15 +226,15 @@ func c14Run(ci any) Result {
 		// the application wrapped its handler once (mw(handler)) instead of handing the middleware to echo: the
 		// per-chain state of the middleware is then shared by all requests, also by overlapping (nested) ones
 		e = echo.New()
-		e.POST("/", middleware.BodyLimit(c.LimitStr)(h))
+		e.Match(c14Methods, "/", middleware.BodyLimit(c.LimitStr)(h))
 		if c.InnerStr != "" {
-			e.POST("/inner", middleware.BodyLimit(c.LimitStr)(h), middleware.BodyLimit(c.InnerStr))
+			e.Match(c14Methods, "/inner", middleware.BodyLimit(c.LimitStr)(h), middleware.BodyLimit(c.InnerStr))
 		}
 	} else {
-		e.POST("/", h)
+		e.Match(c14Methods, "/", h)
 	}
 	if c.InnerStr != "" && c.Limit%3 != 1 {
-		e.POST("/inner", h, middleware.BodyLimit(c.InnerStr))
+		e.Match(c14Methods, "/inner", h, middleware.BodyLimit(c.InnerStr))
 	}
 	var served []c14Served
 	var serve func(rq *c14Req)
@@ -247,7 +249,9 @@ func c14Run(ci any) Result {
 			path = "/inner"
 		}
 		st := &c14State{rq: rq, sub: serve}
+		// any method may carry a body (the limit is not a property of POST)
 		req := httptest.NewRequest(http.MethodPost, path, nil)
+		req.Method = c14Methods[(len(rq.Chunks)+len(rq.Reads)+int(rq.Declared+1))%len(c14Methods)]
 		req = req.WithContext(context.WithValue(req.Context(), c14Key{}, st))
 		req.Body = rd
 		req.ContentLength = rq.Declared
